@@ -23,6 +23,8 @@ import (
 type Clause struct {
 	Expr ast.Expr
 	Text string
+	Src  string
+	Auto bool
 }
 
 type LoopSpec struct {
@@ -42,6 +44,8 @@ type Contract struct {
 	Trusted     bool
 	Auto        bool
 	File        string
+	Default     bool
+	Except      []string
 	OnUse       func(fr *Frame, callee *ssa.Function, args []Val, res Val, pre *State)
 }
 
@@ -99,7 +103,7 @@ func parseClause(s string) (Clause, error) {
 	if err != nil {
 		return Clause{}, fmt.Errorf("cannot parse %q: %v", s, err)
 	}
-	return Clause{Expr: e, Text: normText(s)}, nil
+	return Clause{Expr: e, Text: normText(s), Src: s}, nil
 }
 
 func (e *Engine) loadContracts() error {
@@ -175,10 +179,23 @@ func (e *Engine) loadContractFile(path string) error {
 		case "func":
 			key := short + "." + rest
 			cur = &Contract{Key: key, PkgPath: pkgPath, Loops: map[int]*LoopSpec{}, File: path}
+			if strings.HasSuffix(key, "*") {
+				// default contract for every function whose key has this prefix and has no written contract
+				cur.Default = true
+				e.Defaults = append(e.Defaults, cur)
+				break
+			}
 			if _, dup := e.Contracts[key]; dup {
 				return fmt.Errorf("duplicate contract for %s", key)
 			}
 			e.Contracts[key] = cur
+		case "except":
+			if cur == nil || !cur.Default {
+				return fmt.Errorf("except outside a default contract: %s", l)
+			}
+			for _, it := range strings.Split(rest, ",") {
+				cur.Except = append(cur.Except, short+"."+strings.TrimSpace(it))
+			}
 		case "pred":
 			// pred name(a T, b U) = body
 			m := regexp.MustCompile(`^(\w+)\((.*?)\)\s*=\s*(.*)$`).FindStringSubmatch(rest)
@@ -404,8 +421,22 @@ func (e *Engine) resolveType(pkgPath, expr string) (types.Type, error) {
 
 // contractFor returns the written contract of fn, or an auto contract from the property driver.
 func (e *Engine) contractFor(fn *ssa.Function, opts *VCOpts) *Contract {
-	if c, ok := e.Contracts[fnKey(fn)]; ok {
+	k := fnKey(fn)
+	if c, ok := e.Contracts[k]; ok {
 		return c
+	}
+	if fn.Parent() == nil && fn.Synthetic == "" {
+	next:
+		for _, d := range e.Defaults {
+			if strings.HasPrefix(k, strings.TrimSuffix(d.Key, "*")) {
+				for _, ex := range d.Except {
+					if ex == k {
+						continue next
+					}
+				}
+				return d
+			}
+		}
 	}
 	if opts != nil && opts.AutoContract != nil {
 		return opts.AutoContract(fn)
@@ -435,6 +466,18 @@ type SpecEnv struct {
 
 func newSpecEnv(fr *Frame, fn *ssa.Function) *SpecEnv {
 	return &SpecEnv{fr: fr, fn: fn, names: map[string]SV{}}
+}
+
+// bindParams binds parameter names (and `recv` for the receiver) to argument values
+func (env *SpecEnv) bindParams(fn *ssa.Function, args []Val) {
+	for i, p := range fn.Params {
+		if i < len(args) {
+			env.names[p.Name()] = SV{T: p.Type(), V: args[i]}
+			if i == 0 && fn.Signature.Recv() != nil {
+				env.names["recv"] = SV{T: p.Type(), V: args[i]}
+			}
+		}
+	}
 }
 
 func (env *SpecEnv) pkg() *types.Package {
